@@ -15,6 +15,9 @@ def run(ctx):
     hs = [H('VerifC06History', 'pkg/northbound/gnmi/v2', f, unwind=16, opts={'params': {'sets': n, 'again': 1}, 'cuts': cuts, 'maporder': mo},
             timeout_ms=300000 if quick else 1800000, replay_attempts=16)
           for n, mo in ([(1, 0), (1, 1), (2, 0)] if quick else [(1, 0), (1, 1), (2, 0), (2, 1), (3, 0)])]
+    # chain: Set, Set, rollback, Set, rollback, rollback of the first Set
+    hs.append(H('VerifC06History', 'pkg/northbound/gnmi/v2', f, unwind=16, opts={'params': {'sets': 2, 'again': 0, 'chain': 1}, 'cuts': cuts, 'maporder': 0},
+                timeout_ms=300000 if quick else 1800000, replay_attempts=16))
     if ctx.only:
         hs = [h for h in hs if h.entry in ctx.only]
     driver.check_harnesses(ctx, hs)
